@@ -663,11 +663,10 @@ func (u *URI) AppendBytes(dst []byte) []byte {
 func (u *URI) RequestURI() []byte {
 	var dst []byte
 	if u.DisablePathNormalizing {
-		dst = append(u.requestURI[:0], u.PathOriginal()...)
-		if len(dst) == 0 {
-			// (a request target has a path even when the URL has none)
-			dst = append(dst, '/')
-		}
+		// "as it is" - but the path of a request target, and of a URL after its host,
+		// begins with a slash (an empty one is "/")
+		dst = addLeadingSlash(u.requestURI[:0], u.PathOriginal())
+		dst = append(dst, u.PathOriginal()...)
 	} else {
 		dst = bytesconv.AppendQuotedPath(u.requestURI[:0], u.Path())
 	}
